@@ -131,6 +131,21 @@ def gen(src):
     fn = src.func(REL, 'add_pairs', 'RandomNet'); env = _locals(fn)
     if 'born' not in env: raise ExtractError('RandomNet.add_pairs: `born` not found')
     facts['random_born'] = _conj(env['born'], {k: v for k, v in env.items() if k != 'born'})
+    # the plain-number branch: one contact count per ACTIVE agent (len(people)) or per eligible agent (born)?
+    plain = None
+    for n in ast.walk(fn):
+        if isinstance(n, ast.If) and 'isinstance(self.pars.n_contacts' in unparse(n.test).replace(' ', '') and n.orelse:
+            for m in n.orelse:
+                if isinstance(m, ast.Assign) and unparse(m.targets[0]) == 'number_of_contacts':
+                    plain = unparse(m.value).replace(' ', '')
+    if plain is None:
+        raise ExtractError('RandomNet.add_pairs: the branch for a non-Dist n_contacts was not found')
+    if 'len(people)' in plain or 'len(self.sim.people)' in plain or 'len(people.auids)' in plain:
+        facts['random_plain_counts'] = 'all-active'
+    elif 'born' in plain:
+        facts['random_plain_counts'] = 'eligible'
+    else:
+        raise ExtractError(f'RandomNet.add_pairs: cannot classify the plain-number contact vector {plain[:80]}')
     # ErdosRenyi endpoints: p1 = idx1[edge] (positions) or born_uids[idx1[edge]] (identifiers)
     fn = src.func(REL, 'add_pairs', 'ErdosRenyiNet'); env = _locals(fn)
     call = [n for n in ast.walk(fn) if isinstance(n, ast.Call) and unparse(n.func) == 'self.append']
@@ -153,10 +168,24 @@ def gen(src):
         if isinstance(n, ast.Assign) and isinstance(n.targets[0], ast.Subscript) and unparse(n.targets[0].value) == 'self.edges':
             asg[ast.literal_eval(n.targets[0].slice)] = unparse(n.value).replace(' ', '')
     if 'p1' not in asg or 'p2' not in asg: raise ExtractError('DiskNet.add_pairs: edges[p1]/[p2] assignment not found')
+    # where do the locals p1 / p2 come from: `p1, p2 = np.triu_indices(...)` (positions) or `p1, p2 = auids[i1], auids[i2]` (identifiers)
+    origin = {}
+    for n in ast.walk(fn):
+        if isinstance(n, ast.Assign) and isinstance(n.targets[0], ast.Tuple):
+            names = [unparse(t) for t in n.targets[0].elts]
+            if isinstance(n.value, ast.Tuple) and len(n.value.elts) == len(names):
+                for nm, v in zip(names, n.value.elts): origin[nm] = unparse(v).replace(' ', '')
+            else:
+                for nm in names: origin[nm] = unparse(n.value).replace(' ', '')
+        elif isinstance(n, ast.Assign) and isinstance(n.targets[0], ast.Name):
+            origin[n.targets[0].id] = unparse(n.value).replace(' ', '')
     def dkind(e):
-        if e.startswith('ss.uids(p1[') or e.startswith('ss.uids(p2['): return 'positions'
-        if 'auids[' in e or '.uid[' in e or 'uid.raw[' in e: return 'uids'
-        raise ExtractError(f'DiskNet.add_pairs: cannot classify endpoint expression {e[:80]}')
+        import re
+        m = re.match(r'ss\.uids\((\w+)\[', e)
+        src_expr = origin.get(m.group(1), '') if m else e
+        if 'auids[' in src_expr or '.uid[' in src_expr or 'uid.raw[' in src_expr: return 'uids'
+        if src_expr.startswith('np.triu_indices('): return 'positions'
+        raise ExtractError(f'DiskNet.add_pairs: cannot classify endpoint expression {e[:80]} (from {src_expr[:60]})')
     d1, d2 = dkind(asg['p1']), dkind(asg['p2'])
     if d1 != d2: raise ExtractError('DiskNet.add_pairs: p1 and p2 built differently')
     facts['disk_endpoints'] = d1
@@ -186,6 +215,9 @@ def randomBorn : List String := {_lst(facts['random_born'])}
 /-- `ErdosRenyiNet.add_pairs` / `DiskNet.add_pairs`: are the endpoints array positions (today) or identifiers -/
 def erdosUsesPositions : Bool := {'true' if facts['erdos_endpoints'] == 'positions' else 'false'}
 def diskUsesPositions : Bool := {'true' if facts['disk_endpoints'] == 'positions' else 'false'}
+/-- `RandomNet.add_pairs`, plain-number `n_contacts`: is there one contact count per ACTIVE agent (today) although only the
+    eligible ones are given source slots -/
+def randomPlainCountsAllPeople : Bool := {'true' if facts['random_plain_counts'] == 'all-active' else 'false'}
 /-- `People.remove_dead` tells every network to drop the dead agents -/
 def removeDeadTellsNetworks : Bool := {'true' if facts['remove_dead_networks'] else 'false'}
 def removeDeadUids : String := {lean_str(facts['remove_dead_uids'])}
